@@ -412,6 +412,40 @@ func (x *c13) runUDP(tier string, caseNo int) {
 			x.settle()
 			x.drainAndCompare()
 			x.rec.FP("inbound/read-back")
+		case op == 5 && rng.Intn(2) == 0:
+			// two strangers on different hosts speak one after the other, and the application answers
+			// each at the address ReadFrom reported - the very value it was handed, as applications do
+			x.drainAndCompare()
+			buf := make([]byte, 2000)
+			for k := 0; k < 2 && len(x.rec.Violations()) == 0; k++ {
+				host := &net.UDPAddr{IP: net.IPv4(10, 3, byte(st+1), byte(1+k)).To4(), Port: 9000}
+				idx := len(x.peers)
+				x.peers = append(x.peers, host)
+				hello := []byte(fmt.Sprintf("from:%s#hello-%d|", host, rng.Int63()))
+				x.inboundInd(host, hello)
+				x.settle()
+				if !x.setDeadline("SetReadDeadline", time.Now().Add(50*time.Millisecond)) {
+					return
+				}
+				n, from, err := conn.ReadFrom(buf)
+				x.queue = nil
+				if err != nil || !bytes.Equal(buf[:n], hello) || from.String() != host.String() {
+					x.rec.Violate("readfrom-wrong", "mismatch", "ReadFrom returned %q from %v (%v), the server relayed %q from %s", head(buf[:n]), from, err, head(hello), host)
+
+					break
+				}
+				x.setDeadline("SetReadDeadline", time.Time{})
+				wmu.Lock()
+				seq++
+				sq := seq
+				wmu.Unlock()
+				prng := rand.New(rand.NewSource(int64(sq)))
+				if _, err := conn.WriteTo(c13Payload(idx, sq, 16+prng.Intn(40), prng), from); err != nil {
+					x.rec.FP("writeto/reply/err=%v", errClass(err))
+				}
+				x.settle()
+			}
+			x.rec.FP("reply-to-the-address-readfrom-reported")
 		case op == 5: // ChannelData on a channel the client does not know: must not surface
 			x.srv.Send(x.rc.Conn.Addr(), wire.EncodeChannelData(uint16(0x7000+rng.Intn(0xFFF)), []byte("unknown-channel"), true), 0)
 			x.settle()
